@@ -20,6 +20,13 @@ THEOREMS = [_T + t for t in [
     "F6_fixed_uprio_counts_inside_lock",
     "F7_fixed_segmented_no_skip",
     "F8_fixed_segmented_no_relink",
+    "F9_fair_pending_drift_strands_sender",
+    "F9b_fair_length_dip_strands_other_sender",
+    "fair_counting_refuted",
+    "F10_fair_late_activation_spurious_nil",
+    "fair_activation_protocol",
+    "fair_no_stranded_sender_when_quiescent",
+    "fair_subqueue_frame",
     "C04_spec_fifo",
     "rq_run_conserve",
     "rq_deq_none",
@@ -111,8 +118,8 @@ SITES = {
 JUDGE = True
 TIMEOUT = 900
 MANIFEST = {
-    "level_text": "All nine mailbox algorithms are modelled in Lean at atomic-operation granularity (one transition per sync/atomic site of the Go code, labels as emitted by yieldinject) and tied to /repo by controlled-schedule replay: same step labels, same results with real-time stamps, same final drain. Kernel-checked: the full property C04_full (history oracle over all mailboxes, programs and schedules) is REFUTED (C04_refuted) by the witness F2 (Vyukov window, inherent), replayed on the real code (corpus/C04); six further defects F3..F8 found by this check were repaired in /repo (fix: commits) and their witness schedules are kept as regression tests on model and code; the reservation-queue specification is FIFO in reservation order and exactly-once for all event sequences (C04_spec_fifo, rq_run_conserve). UnboundedMailbox (the default mailbox, Vyukov MPSC list): forward simulation from the small-step model to the reservation queue for ALL schedules, any number of producers, one consumer (unbounded_forward_simulation, inductive invariant UB.Inv); corollaries for every run (unbounded_linearizable): values returned by Dequeue = the successful dequeues of the specification run = a prefix of the reservation sequence, which never repeats; accepted messages are dequeued or READY (never lost); the recycled sentinel is referenced by nobody (unbounded_recycled_not_aliased); empty-soundness under the guard 'no enqueue between reserve and publish' (C04_empty_sound_partial). Priority mailboxes: container/heap = stableHeap refines a priority queue for all operation sequences and an arbitrary strict weak order (Heap.push_inv/pop_inv/pop_min/pop_perm, heap_all_sequences); heap order is an invariant of every reachable configuration of all four priority mailbox models, so every removal takes a minimum (uprio_priority_order, intake_priority_order), priority-then-arrival for the stable variants (stable_priority_then_arrival); the bounded variants' counter never exceeds the capacity (bounded_priority_capacity); uprio's counter is exact and its critical section exclusive (uprio_empty_sound). NonBlockingBoundedMailbox (Vyukov ring): Owicki-Gries invariants for all schedules: at most size positions reserved and unreleased, slot marks, reject only when full, nil only when the head position is unpublished, no overwrite, no two owners of a position (ring_capacity, ring_reject_only_when_full, ring_nil_only_when_head_unpublished, ring_no_overwrite), and values: the messages returned by Dequeue are exactly the first dequeuePos messages of the reservation sequence, for every schedule (ring_fifo_exactly_once). UnboundedSegmentedMailbox (repaired): slot discipline and head-advance rule, segment-list invariant, and exactly-once + FIFO of the values across segment boundaries for every schedule (segmented_head_advance_rule, segmented_no_skipped_slot, segmented_segment_list, segmented_fifo_exactly_once).",
-    "level_note": "Partial: the simulation to the reservation queue is proved for UnboundedMailbox; for the intake-based priority mailboxes heap refinement, capacity and the Treiber-intake conservation (accepted = inserted into the heap, in acceptance order) and the value-level exactly-once statement (returned ++ heap ++ batch rest ++ stack is a permutation of the accepted messages, intake_exactly_once) are proved; the fair mailbox is modelled and tied, not proved (design/C04.md). BoundedMailbox (third-party Workiva ring buffer) is a black-box parameter, tied sequentially only. sync.Pool is pinned to one P without GC in the harness and modelled as private slot + LIFO. Counter wrap-around at 2^64 is not modelled.",
+    "level_text": "All nine mailbox algorithms are modelled in Lean at atomic-operation granularity (one transition per sync/atomic site of the Go code, labels as emitted by yieldinject) and tied to /repo by controlled-schedule replay: same step labels, same results with real-time stamps, same final drain. Kernel-checked: the full property C04_full (history oracle over all mailboxes, programs and schedules) is REFUTED (C04_refuted) by the witness F2 (Vyukov window, inherent), replayed on the real code (corpus/C04); six further defects F3..F8 found by this check were repaired in /repo (fix: commits) and their witness schedules are kept as regression tests on model and code; two more in the fair mailbox are open with kernel-checked witnesses replayed on the real code (F9: message consumed before it is counted, counters drift, sender stranded, message lost; F10: late activation, spurious nil); the reservation-queue specification is FIFO in reservation order and exactly-once for all event sequences (C04_spec_fifo, rq_run_conserve). UnboundedMailbox (the default mailbox, Vyukov MPSC list): forward simulation from the small-step model to the reservation queue for ALL schedules, any number of producers, one consumer (unbounded_forward_simulation, inductive invariant UB.Inv); corollaries for every run (unbounded_linearizable): values returned by Dequeue = the successful dequeues of the specification run = a prefix of the reservation sequence, which never repeats; accepted messages are dequeued or READY (never lost); the recycled sentinel is referenced by nobody (unbounded_recycled_not_aliased); empty-soundness under the guard 'no enqueue between reserve and publish' (C04_empty_sound_partial). Priority mailboxes: container/heap = stableHeap refines a priority queue for all operation sequences and an arbitrary strict weak order (Heap.push_inv/pop_inv/pop_min/pop_perm, heap_all_sequences); heap order is an invariant of every reachable configuration of all four priority mailbox models, so every removal takes a minimum (uprio_priority_order, intake_priority_order), priority-then-arrival for the stable variants (stable_priority_then_arrival); the bounded variants' counter never exceeds the capacity (bounded_priority_capacity); uprio's counter is exact and its critical section exclusive (uprio_empty_sound). NonBlockingBoundedMailbox (Vyukov ring): Owicki-Gries invariants for all schedules: at most size positions reserved and unreleased, slot marks, reject only when full, nil only when the head position is unpublished, no overwrite, no two owners of a position (ring_capacity, ring_reject_only_when_full, ring_nil_only_when_head_unpublished, ring_no_overwrite), and values: the messages returned by Dequeue are exactly the first dequeuePos messages of the reservation sequence, for every schedule (ring_fifo_exactly_once). UnboundedSegmentedMailbox (repaired): slot discipline and head-advance rule, segment-list invariant, and exactly-once + FIFO of the values across segment boundaries for every schedule (segmented_head_advance_rule, segmented_no_skipped_slot, segmented_segment_list, segmented_fifo_exactly_once).",
+    "level_note": "Partial: the simulation to the reservation queue is proved for UnboundedMailbox; for the intake-based priority mailboxes heap refinement, capacity and the Treiber-intake conservation (accepted = inserted into the heap, in acceptance order) and the value-level exactly-once statement (returned ++ heap ++ batch rest ++ stack is a permutation of the accepted messages, intake_exactly_once) are proved; for the fair mailbox the activation protocol is proved for all schedules up to one isolated step (fair_activation_protocol; the re-check with length <= 0 < pending) and its sub-queues are shown to be driven by UnboundedMailbox steps only (fair_subqueue_frame); the counting identity is refuted (fair_counting_refuted) and its composite exactly-once statement is false of the code as it is (open findings C04-F9, C04-F10 with fix proposals; design/C04.md says what is missing). BoundedMailbox (third-party Workiva ring buffer) is a black-box parameter, tied sequentially only. sync.Pool is pinned to one P without GC in the harness and modelled as private slot + LIFO. Counter wrap-around at 2^64 is not modelled.",
     "technique": "Lean 4 small-step models + controlled-schedule differential (cooperative scheduler injected at every atomic operation) + history oracle with real-time intervals",
 }
 TRUSTED = [
@@ -305,6 +312,41 @@ def _ring_wrap_case(rng):
 KINDS = ["unbounded", "segmented", "fair", "uprio", "usprio", "bprio", "bsprio", "ring"]
 
 
+_FAIR_LATE = [
+    # (programs, blocks): the witnesses of C04-F9 / F9b / F10 as (thread, steps) blocks
+    ("e1@1 e4@1 ; e2@1 ; e3@1 ; d d d d d",
+     [(0, 10), (3, 13), (1, 5), (3, 6), (3, 15), (2, 3), (1, 5), (3, 16), (2, 7), (3, 12), (0, 5), (3, 2)]),
+    ("e1@2 ; e2@2 ; e3@2 ; e5@1 ; e6@1 ; d d d d d",
+     [(0, 10), (5, 13), (1, 5), (5, 6), (5, 15), (2, 3), (1, 5), (5, 16), (3, 2), (4, 10), (5, 12), (3, 3), (2, 7), (5, 16)]),
+    ("e1@1 ; e2@1 ; e3@2 ; d d len d d",
+     [(0, 10), (3, 13), (1, 5), (3, 6), (3, 15), (1, 5), (2, 10), (3, 1), (3, 12), (3, 15)]),
+]
+
+
+def _fair_late_activation_case(rng):
+    """neighbourhood of the late-activation schedules (a producer parked between `Add:pending` = 1 and its
+    `CAS:active` while the consumer serves and deactivates the sender): block lengths and owners perturbed"""
+    progs, seq = rng.choice(_FAIR_LATE)
+    nt = len(progs.split(";"))
+    out = []
+    for (t, n) in seq:
+        r = rng.random()
+        if r < 0.25:
+            n = max(0, n + rng.choice([-3, -2, -1, 1, 2, 3]))
+        elif r < 0.30:
+            t = rng.randrange(nt)
+        out.append((t, n))
+    if rng.random() < 0.3:
+        i = rng.randrange(len(out) - 1)
+        out[i], out[i + 1] = out[i + 1], out[i]
+    if rng.random() < 0.5:
+        progs = progs + " d"
+    sched = []
+    for t, n in out:
+        sched += [t] * n
+    return "fair | " + progs + " | " + " ".join(map(str, sched))
+
+
 def gen_cases(rng, tier):
     cases = []
     per = 60 if tier == "quick" else 2200
@@ -322,6 +364,8 @@ def gen_cases(rng, tier):
     if tier == "thorough":
         for _ in range(4):
             cases.append(_segment_boundary_case(rng, 3))
+    for _ in range(25 if tier == "quick" else 600):
+        cases.append(_fair_late_activation_case(rng))
     return cases
 
 
@@ -336,6 +380,8 @@ def search_cases(rng, tier):
         cases.append(_ring_wrap_case(rng))
     for _ in range(20):
         cases.append(_segment_boundary_case(rng, rng.choice([1, 2])))
+    for _ in range(600):
+        cases.append(_fair_late_activation_case(rng))
     return cases
 
 
@@ -535,6 +581,68 @@ def oracle(case, impl, judge):
     return fails[0] if fails else None
 
 
+def fair_events(case, impl):
+    """(late_activation, uncounted_consumption) of a fair-mailbox run, recomputed from the trace.
+    pending[k] is replayed from the `Add:pending` steps: the n-th one of a producer thread belongs to its
+    n-th enqueue (key from the program), the n-th one of the consumer to its n-th successful Dequeue (key of
+    the message it returned); `Store:pending` is finalizeSender's reset to 0.
+    late activation  = a producer's CAS:active succeeds (its next step is Store:value) while pending[k] <= 0;
+    uncounted consumption = the consumer decrements pending[k] while it is <= 0."""
+    try:
+        cp = case.split("|")
+        progs = [p.split() for p in cp[1].split(";")]
+        ct = len(progs) - 1
+        keyof = {}
+        enqkeys = []
+        for p in progs:
+            ks = []
+            for op in p:
+                if op.startswith("e") and op != "emp":
+                    body = op[1:].split("@")
+                    k = int(body[1]) if len(body) > 1 else 0
+                    keyof[int(body[0])] = k
+                    ks.append(k)
+            enqkeys.append(ks)
+        parts = impl.split("|")
+        toks = [t for t in parts[0].split()[1:] if ":" in t]
+        res = parts[1].split()[1].split(";")[ct] if len(parts) > 1 else ""
+        got = []
+        for op, r in zip(progs[ct], res.split(",")):
+            v = r.split("@")[0]
+            if op == "d" and v.isdigit():
+                got.append(int(v))
+        pend = {}
+        nadd = [0] * len(progs)
+        cur = {}
+        late = uncounted = False
+        steps = [(int(t.split(":", 1)[0]), t.split(":", 1)[1]) for t in toks]
+        for i, (t, lab) in enumerate(steps):
+            if lab == "Add:pending":
+                if t == ct:
+                    if nadd[t] >= len(got):
+                        continue
+                    k = keyof.get(got[nadd[t]], 0)
+                    if pend.get(k, 0) <= 0:
+                        uncounted = True
+                    pend[k] = pend.get(k, 0) - 1
+                else:
+                    if nadd[t] >= len(enqkeys[t]):
+                        continue
+                    k = enqkeys[t][nadd[t]]
+                    pend[k] = pend.get(k, 0) + 1
+                cur[t] = k
+                nadd[t] += 1
+            elif lab == "Store:pending" and t == ct and t in cur:
+                pend[cur[t]] = 0
+            elif lab == "CAS:active" and t != ct and t in cur:
+                nxt = next((l for (u, l) in steps[i + 1:] if u == t), None)
+                if nxt == "Store:value" and pend.get(cur[t], 0) <= 0:
+                    late = True
+        return late, uncounted
+    except Exception:
+        return False, False
+
+
 def classify(case, impl, why):
     """map an oracle failure to a known finding id — exact signature only.
     (F3..F8 are repaired in /repo; their signatures were removed so that a regression is a VIOLATION.)"""
@@ -548,6 +656,13 @@ def classify(case, impl, why):
         # IsEmpty is affected only where it follows the links (unbounded)
         if infl >= 1 and kind in VYUKOV_TYPES and ("Dequeue=nil" in why or kind == "unbounded"):
             return "C04-F2"
+    # C04-F9 / C04-F10 (fair mailbox): exact trace events, see fair_events
+    if kind == "fair" and (why.startswith("lost") or why.startswith("empty-unsound")):
+        late, uncounted = fair_events(case, impl)
+        if uncounted:
+            return "C04-F9"
+        if late:
+            return "C04-F10"
     # not a recorded finding: name the violated clause, so that the shrinker keeps to failures of the
     # same clause (a pure model/implementation difference has no oracle failure and is classified None)
     head = why.split(":")[0]
